@@ -731,6 +731,49 @@ def gen_sizes():
     d('scat1_channels', ['c'], t.expr(_call_arg(f1, 'Z.view', 1)))
     t = SizeTranslator(fj, {})
     d('scatj2_channels', ['c'], t.expr(_call_arg(fj, 'Z.view', 1)))
+    # --- the `roll` helper (dwt/lowlevel.py): the normalisation of a negative shift and the two slice bounds of each `dim` branch
+    fr = _find_fn(low, 'roll')
+    t = SizeTranslator(fr, {'x.shape[dim]': 'N'})
+    neg = None
+    for st in fr.body:
+        if isinstance(st, ast.If) and ast.unparse(st.test) == 'n < 0' and len(st.body) == 1 and isinstance(st.body[0], ast.Assign) and ast.unparse(st.body[0].targets[0]) == 'n' and not st.orelse:
+            neg = st.body[0].value
+    if neg is None:
+        raise TranslateError('roll: the statement `if n < 0: n = ...` was not found')
+    d('roll_norm', ['n', 'N'], '(if n < 0 then %s else n)' % t.expr(neg))
+    rets = [node for node in ast.walk(fr) if isinstance(node, ast.Return)]
+    if len(rets) != 4:
+        raise TranslateError('roll: expected four return statements (one per dim), found %d' % len(rets))
+    t2 = SizeTranslator(fr, {'end': 'e'})
+    for k, r in enumerate(rets):
+        call = r.value
+        if not (isinstance(call, ast.Call) and ast.unparse(call.func) == 'torch.cat' and isinstance(call.args[0], ast.Tuple) and len(call.args[0].elts) == 2):
+            raise TranslateError('roll: return #%d is not torch.cat((a, b), dim=...)' % k)
+        a, b = call.args[0].elts
+        def last(sub):
+            sl = sub.slice.elts[-1] if isinstance(sub.slice, ast.Tuple) else sub.slice
+            npos = len(sub.slice.elts) if isinstance(sub.slice, ast.Tuple) else 1
+            if ast.unparse(sub.value) != 'x' or not isinstance(sl, ast.Slice) or sl.step is not None:
+                raise TranslateError('roll: unexpected slice %s' % ast.unparse(sub))
+            return sl, npos
+        sa, na = last(a); sb, nb = last(b)
+        dimkw = [kw.value.value for kw in call.keywords if kw.arg == 'dim']
+        if sa.upper is not None or sa.lower is None or sb.lower is not None or sb.upper is None or na != nb or dimkw != [na - 1]:
+            raise TranslateError('roll: return #%d has an unexpected form: %s' % (k, ast.unparse(r)))
+        d('roll_first_from_%d' % (na - 1), ['n'], t2.expr(sa.lower)); d('roll_second_to_%d' % (na - 1), ['n', 'e'], t2.expr(sb.upper))
+    # --- which filter-preparation helpers mirror the taps (`h[::-1]`)
+    def mirrors(fn, param):
+        for node in ast.walk(fn):
+            if isinstance(node, ast.Subscript) and isinstance(node.slice, ast.Slice) and node.slice.step is not None and ast.unparse(node.slice.step) == '-1' \
+                    and node.slice.lower is None and node.slice.upper is None and param in ast.unparse(node.value):
+                return True
+        return False
+    dlow = os.path.join(rt.REPO, 'pytorch_wavelets', 'dtcwt', 'lowlevel.py')
+    flags = [('prep_afb1d_mirrors_h0', mirrors(_find_fn(low, 'prep_filt_afb1d'), 'h0')), ('prep_afb1d_mirrors_h1', mirrors(_find_fn(low, 'prep_filt_afb1d'), 'h1')),
+             ('prep_sfb1d_mirrors_g0', mirrors(_find_fn(low, 'prep_filt_sfb1d'), 'g0')), ('prep_sfb1d_mirrors_g1', mirrors(_find_fn(low, 'prep_filt_sfb1d'), 'g1')),
+             ('dtcwt_prep_filt_mirrors', mirrors(_find_fn(dlow, 'prep_filt'), 'h'))]
+    for name, val in flags:
+        out.append('def %s : Bool := %s' % (name, 'true' if val else 'false'))
     out.append('\nend WV.Gen.Sizes\n')
     return _write(os.path.join(GEN, 'Sizes.lean'), '\n'.join(out))
 
